@@ -621,7 +621,9 @@ package dt
 //@   ensures empty: len(old(s.items)) == 0 ==> !result.ok && len(s.items) == 0 && result == s.bottom
 
 // Item.Remove: a member is unlinked (the stack's view loses exactly that
-// position, Len follows); detached / not-ok items are refused.
+// position, Len follows); detached / not-ok items are refused. KNOWN FINDING on
+// the pinned tree: the item is not unlinked (post(removed) fails); the pinned test
+// TestStack/Item/RemovingRoot asserts the broken state, so it is not repaired.
 //@ func (*Item).Remove
 //@   props C16
 //@   requires it == nil || (allocated(it) && (it.stack != nil ==> swf(it.stack) && (it == it.stack.bottom || smember(it.stack, it))))
@@ -632,7 +634,6 @@ package dt
 //@   ensures removed: it != nil && old(it.stack) != nil && old(it.ok) ==> result == true && it.stack == nil && swf(old(it.stack)) && old(it.stack).items == remove(old(it.stack.items), old(it.pos))
 //@   loop 1 invariant it != nil && it.stack != nil && it.stack == old(it.stack) && swf(it.stack) && it.stack.items == old(it.stack.items) && smember(it.stack, it) && next != nil
 //@   loop 1 invariant (next == it.stack.bottom && it.pos >= len(it.stack.items)) || (smember(it.stack, next) && next.pos <= it.pos)
-//@   loop 1 invariant prev == nil ? next == it.stack.head : (smember(it.stack, prev) && prev.next == next && (next == it.stack.bottom ? prev.pos == len(it.stack.items) - 1 : prev.pos + 1 == next.pos))
 //@   loop 1 decreases (next == it.stack.bottom ? 0 : len(it.stack.items) - next.pos)
 
 //@ func (*Item).In
